@@ -690,6 +690,9 @@ func Gen(run *vlib.Run, seed uint64, tier string) {
 
 	// (6) tables that went through Encode / (mutation) / gtab.Read
 	genRead(run, root.Fork("read"), tier)
+
+	// (7) histories of Layout calls on one sfnt.Layouter (oracle only)
+	genLayout(run, root.Fork("layouter"), tier)
 }
 
 // directed returns hand-written cases around the repaired defects.
